@@ -47,7 +47,6 @@ Section Run.
   Variable descs : list (N * dinfo).        (* what a fresh update records, per descriptor *)
   Variable sigflags : list (N * N).         (* sighash flag of every partial signature that is not ALL *)
   Variable mall_false mall_true : bool.     (* allow_mall really used by finalize_inp_mut / finalize_inp_mall_mut *)
-  Variable keep_unknown : bool.             (* does a finalized input keep its `unknown` map? *)
 
   Definition desc_of (d : N) : dinfo := match assoc d descs with Some x => x | None => dummy_desc end.
   Definition flag_of (s : N) : option N := match assoc s sigflags with Some f => Some f | None => Some flag_all end.
@@ -55,7 +54,7 @@ Section Run.
   Definition mall_of (m : bool) : bool := if m then mall_true else mall_false.
 
   Definition model_trace (c : pcase) : list (result * psbt) :=
-    trace (try_of (c_try c)) (interp_of (c_interp c)) desc_of flag_of ecdsa_of mall_of keep_unknown
+    trace (try_of (c_try c)) (interp_of (c_interp c)) desc_of flag_of ecdsa_of mall_of
           (c_ops c) (mkPsbt (c_tx c) (c_ntx c) (c_init c)).
 
   (* 0 = agree; 1 = result class differs; 2 = state differs; 3 = both; 4 = length *)
